@@ -35,6 +35,9 @@ pub struct Ctx {
     pub sig_counts: BTreeMap<String, u64>,
     pub samples: Vec<Value>,
     pub want_sample: bool,
+    /// when set, the case function returns right after describing the case (used to describe
+    /// cases that crashed their child process)
+    pub describe_only: bool,
     pub space: String,
     pub notes: BTreeMap<String, u64>,
 }
@@ -52,6 +55,7 @@ impl Ctx {
             sig_counts: BTreeMap::new(),
             samples: Vec::new(),
             want_sample: false,
+            describe_only: false,
             space: space.to_string(),
             notes: BTreeMap::new(),
         }
